@@ -8,6 +8,7 @@ import Proofs.Lemmas.BeaconBlockSteps
 import Proofs.Lemmas.BeaconBlockFrames
 import Proofs.Lemmas.BeaconBlockP0
 import Proofs.Lemmas.BeaconBlockP0Att
+import Proofs.Lemmas.BeaconBlockP0All
 import Proofs.Properties.C02
 /-!
 # C01 — block state transition equals the consensus spec for every valid block
@@ -61,7 +62,7 @@ initiation, i.e. exits and slashings). That is what keeps `M_block_refines_S` a 
 `M_block_refines_S_partial`. For phase0 blocks WITHOUT operations the premise is discharged completely:
 `processBlock_noOps_eq`; for phase0 blocks whose only operations are voluntary exits: `processBlock_exits_eq`; and for phase0 blocks of proposer
 slashings, attester slashings and exits: `processBlock_slashExit_eq`; for phase0 blocks of attestations:
-`processBlock_attestations_eq`. (Not yet merged into ONE phase0 invariant; deposits and the later forks are open.)
+`processBlock_attestations_eq`. Merged: arbitrary phase0 blocks without deposits, `processBlock_phase0NoDeposits_eq`. (Deposits and the later forks are open.)
 Each `M` piece is additionally tied to the Go function it models by mode `c01pieces`
 (ZigZagJoin, IsSlashableAttestationData, GetExpectedWithdrawals, InitiateValidatorExit,
 ValidateIndexedAttestationIndicesSet are driven directly with generated inputs).
@@ -70,7 +71,7 @@ namespace Zrnt.Proofs.C01
 open Zrnt Zrnt.Beacon Zrnt.Beacon.Spec Zrnt.Beacon.BlockImpl Zrnt.Proofs.BeaconBlock
 open Zrnt.Beacon.BlockM (Ctx processHeader processRandaoReveal processEth1Vote processBLSToExecutionChange processExecutionPayload processVoluntaryExit processDeposit
   processAttestationPhase0 processAttestationAltair slashValidator processProposerSlashing processAttesterSlashing processBlock postSlotTransition)
-open Zrnt.Proofs.BlockM (RegU64 ExitSmall PubkeyOK SameDuties SlashSmall SlashInv OpSteps Sim Refines Safe NoOps SameCommittees OnlyExits ExitInv P0Inv P0Const SlashExitBlock AttInv OnlyAttestations)
+open Zrnt.Proofs.BlockM (RegU64 ExitSmall PubkeyOK SameDuties SlashSmall SlashInv OpSteps Sim Refines Safe NoOps SameCommittees OnlyExits ExitInv P0Inv P0Const SlashExitBlock AttInv OnlyAttestations P0AInv P0AConst Phase0NoDeposits)
 
 /-- (a) `common.ValidatorSet.ZigZagJoin`, called on two strictly increasing index lists (what
 `ValidateIndexedAttestation` has established), calls `onIn` with exactly the spec's
@@ -633,5 +634,18 @@ theorem processBlock_attestations_eq (cfg : Config) (ctx : Ctx) (st : State) (bl
     (htyped : Block.check_types cfg block = .ok ()) :
     Sim (Block.process_block cfg st block) (processBlock cfg ctx st block) :=
   BlockM.processBlock_attestations cfg ctx st block p hno hi hspe hmin hpos hlook hlook2 hsmall htyped
+
+/-- … and for ARBITRARY phase0 blocks without deposits (`Phase0NoDeposits`: proposer slashings, attester slashings,
+attestations and voluntary exits in any numbers and any mix): `M_block_refines_S` and `M_sound` without the premise
+`OpSteps`. `P0AInv … k ctx st` = `P0Inv` (slashing budget, proposer, active count, exit-queue budget) and the context's
+committees = the specification's for the attestable epochs, kept by every operation (exits and slashings keep the
+committees because the exit epoch they assign lies after the current epoch; the slashing loop by transitivity). The
+state after an accepted block satisfies the invariant with the budget that is left. -/
+theorem processBlock_phase0NoDeposits_eq (cfg : Config) (S0 : State) (p Bm C k : Nat) (K : P0Const cfg S0 Bm C) (KA : P0AConst cfg)
+    (ctx : Ctx) (block : SignedBlock) (hb : Phase0NoDeposits cfg block)
+    (hi : P0AInv cfg S0 p Bm C (BlockM.blockNeed block k) ctx S0) (htyped : Block.check_types cfg block = .ok ()) :
+    Sim (Block.process_block cfg S0 block) (processBlock cfg ctx S0 block) ∧
+    ∀ st', processBlock cfg ctx S0 block = .ok st' → ∃ ctx', P0AInv cfg S0 p Bm C k ctx' st' :=
+  BlockM.processBlock_phase0NoDeposits cfg S0 p Bm C k K KA ctx block hb hi htyped
 
 end Zrnt.Proofs.C01
